@@ -115,6 +115,10 @@ def _entry_table(argname_opts="options"):
         "using_data_descriptor": (lambda v: v[0] == "const" and v[2] == 0, "false"),
         "aes_mode": (lambda v: v[0] == "agg" and v[1] == "adt:None", "None"),
         "central_header_start": (lambda v: v[0] == "const" and v[2] == 0, "0"),
+        # the local header writer announces extra_field.len() bytes and writes none (they come through the extra-data API, which
+        # patches the length): a record that starts with extra bytes has a header that lies about where its data begins
+        "extra_field": (lambda v: v[0] == "call" and re.search(r"Vec::<T>::new$|Vec::new$|Default::default$|Vec::<T>::with_capacity$", v[1]) is not None, "Vec::new()"),
+        "file_comment": (lambda v: (v[0] == "call" and re.search(r"String::new$|Default::default$", v[1]) is not None) or (v[0] == "const" and v[2] in ("", None)), "String::new()"),
     }
 
 
